@@ -172,7 +172,7 @@ theorem mRootMut_corr (hw : worldFuncFree c.world = true) (hac : Acyclic c.frags
       cases hr with
       | @ok j v hab =>
         simp only
-        rcases (dfsId (frc := force c alt0 dfuel) dfuel).val v stM (noDef_of_toJ? v j hab) with h1 | h1 <;> rw [h1]
+        rcases (dfsId (frc := forceAll c alt0 dfuel) dfuel).val v stM (noDef_of_toJ? v j hab) with h1 | h1 <;> rw [h1]
         · exact .inl rfl
         · simp only
           exact mRootMut_corr hw hac hfr dfuel rt fuel rest _ _ stS stM hrest (fieldsToJ?_append hacc hab) hst
